@@ -6,9 +6,11 @@ Tie between the `Parsed<T, E>` combinators of `/repo/flussab/src/parser.rs` and 
 every check run, over `ParsedR` (the shape of the Rust enum, `Model/ParsedExt.lean`).  Each theorem says that
 the generated combinator, seen through `ParsedR.toModel`, returns what the model combinator returns (the model
 additionally counts closure invocations; that count is a statement about the model, C15).  Closures are
-pure functions here, as in the model.  Not translated: `and_also`, `and_do` (closures that assign through
-`&mut T`), `err_into` (`From::from`), the `ResultExt` impl — these stay tied by the complete enumeration of
-the combinator domain (engine `comb`).
+pure functions here, as in the model; a closure that receives `&mut T` (`and_also`, `and_do`) is a function
+returning the new value of the referent (and its result), exactly the model's convention — the rewrite of
+`if let PAT(value) = &mut self { .. g(value) .. } self` that this needs is documented in `tools/unit_parsed.py`.
+Not translated: `err_into` (`From::from`), the `ResultExt` impl — these stay tied by the complete enumeration
+of the combinator domain (engine `comb`).
 
 The same file justifies the hand-written combinator contracts the token units use
 (`CnfTokenExt.orGiveUp / orParse / mapErr …`): they are these functions under the "errors are thrown"
@@ -56,6 +58,24 @@ theorem and_then_tied (p : ParsedR α ε) (parse : α → Except ε β) :
     simp only [Parsed.andThen, ParsedR.toModel]
     cases parse v <;> rfl
   · rfl
+
+open ParsedR in
+theorem and_also_tied (p : ParsedR α ε) (parse : α → α × Except ε Unit) :
+    (Gen.Parsed.andAlso (β := β) (ε' := ε') p parse : ParsedR α ε).toModel = (p.toModel.andAlso parse).1 := by
+  rcases p with (_ | v) | _
+  · rfl
+  · show (match parse v with
+        | (v', r0) => (match r0 with
+          | .error err => (ParsedR.res (Except.error err) : ParsedR α ε)
+          | _ => ParsedR.res (Except.ok v'))).toModel = _
+    simp only [Parsed.andAlso, ParsedR.toModel]
+    rcases parse v with ⟨v', _ | ⟨⟩⟩ <;> rfl
+  · rfl
+
+open ParsedR in
+theorem and_do_tied (p : ParsedR α ε) (action : α → α) :
+    (Gen.Parsed.andDo (β := β) (ε' := ε') p action : ParsedR α ε).toModel = (p.toModel.andDo action).1 := by
+  rcases p with (_ | _) | _ <;> rfl
 
 open ParsedR in
 theorem map_tied (p : ParsedR α ε) (f : α → β) :
